@@ -286,7 +286,7 @@ func SeqMain(args []string) {
 func StartSequential(run *ev.Run) (wait func()) {
 	depth, shards, dl := 6, 4, 70
 	if ev.Tier() == "thorough" {
-		depth, shards, dl = 8, 8, 900
+		depth, shards, dl = 7, 8, 900
 	}
 	exe, _ := os.Executable()
 	results := make([]SeqResult, shards)
